@@ -100,6 +100,41 @@ func c01CheckRead(st *Store, root cid.Cid, data []byte, how string, bufSize int)
 			return fmt.Errorf("%s: tail after io.Copy + relative seek: %d bytes (err %v), want %d", how, len(tail), err, k)
 		}
 	}
+	// streamed read from an interior position over storage that fails one load (transiently): the caller retries the
+	// Read that reported the error; what comes out in the end must be exactly the rest of the file
+	if len(data) >= 3 {
+		rs4, _ := lb.AsLargeBytes()
+		k := int64(len(data)/3 + bufSize%2)
+		if p, err := rs4.Seek(k, io.SeekStart); err != nil || p != k {
+			return fmt.Errorf("%s: Seek(%d,Start) = %d,%v", how, k, p, err)
+		}
+		st.FaultKind = (bufSize + len(data)) % len(faultKinds)
+		st.FailReadAt = len(st.ReadLog()) + 1 + bufSize%3
+		var out4 []byte
+		buf := make([]byte, bufSize)
+		retries := 0
+		for i := 0; i < 1<<22; i++ {
+			n, err := rs4.Read(buf)
+			out4 = append(out4, buf[:n]...)
+			if err == io.EOF {
+				break
+			}
+			if err != nil {
+				if !isInjected(err) {
+					st.FailReadAt, st.FaultKind = 0, 0
+					return fmt.Errorf("%s: streamed read from %d over flaky storage: %v", how, k, err)
+				}
+				if retries++; retries > 3 {
+					st.FailReadAt, st.FaultKind = 0, 0
+					return fmt.Errorf("%s: streamed read from %d: a single transient storage fault keeps being reported: %v", how, k, err)
+				}
+			}
+		}
+		st.FailReadAt, st.FaultKind = 0, 0
+		if !bytes.Equal(out4, data[k:]) {
+			return fmt.Errorf("%s: streamed read (buf %d) from %d over storage that failed one load and was retried (%d retries) returned %d bytes, want %d (first diff at %d)", how, bufSize, k, retries, len(out4), len(data)-int(k), firstDiff(out4, data[k:]))
+		}
+	}
 	return nil
 }
 
@@ -163,7 +198,7 @@ func nearPow(n, w int) bool {
 	return false
 }
 
-const c01Rule = "case = (content, chunker, width, writer, reader path, buffer size); oracle = the original bytes (AsBytes, streamed read through a plain io.Reader wrapper, Seek(0,End), declared FileSize decoded by gogo); " +
+const c01Rule = "case = (content, chunker, width, writer, reader path, buffer size); oracle = the original bytes (AsBytes, streamed read through a plain io.Reader wrapper, Seek(0,End), declared FileSize decoded by gogo, io.Copy, and a streamed read from an interior offset over storage that fails one load once with the Read retried); " +
 	"non-trivial = >= 2 interior levels, or chunk count within 1 of w^k, or content-defined chunker with >= 3 chunks, or reference-written with protobuf leaves / trickle; distinct by (writer, chunker class, w, chunks, len mod cs, reader, buffer class)"
 
 func TestC01_P_OwnBuilder(t *testing.T) {
